@@ -367,7 +367,15 @@ def natural_failures(ctx):
             def call(out, wd, top=top):
                 gc.gen_coords(toppath=pathlib.Path(wd) / 'in' / top, outpath=out, name='generated', box=np.array([5.0, 5.0, 5.0]))
             runs.append(('gen_coords', label, outname, call))
+    # the same runs with the output directory reached through a symbolic link or a path with '..'
+    for prog, label, outname, call in list(runs):
+        if label in ('ok', 'linear', 'unknown residue name', 'missing include', 'unknown macro in -seq'):
+            runs.append((prog, label, 'via:lnk/' + outname, call))
+            runs.append((prog, label, 'via:out/../out/' + outname, call))
     for prog, label, outname, call in runs:
+        via = None
+        if outname.startswith('via:'):
+            via, outname = outname[4:].rsplit('/', 1)
         for pre in (False, True):
             with systems.Workdir() as wd:
                 prepare(wd, rng)
@@ -385,16 +393,23 @@ def natural_failures(ctx):
                 reset_writer()
                 sink = io.StringIO()
                 exc = None
+                target = pathlib.Path(outdir) / outname
+                if via:
+                    if via == 'lnk':
+                        os.symlink(outdir, os.path.join(wd, 'lnk'))
+                    target = pathlib.Path(wd) / via / outname
                 try:
                     with contextlib.redirect_stderr(sink), contextlib.redirect_stdout(sink), systems.watchdog(60):
-                        call(pathlib.Path(outdir) / outname, wd)
+                        call(target, wd)
                 except BaseException as e:  # noqa
                     exc = f'{type(e).__name__}: {str(e)[:80]}'
                 after = listing(outdir)
                 reset_writer()
-            ctx.case(('natural', prog, label, outname, pre), nontrivial=exc is not None and pre)
+            ctx.case(('natural', prog, label, outname, pre, via), nontrivial=exc is not None and pre)
             ctx.feature('natural_failure' if exc else 'natural_success')
-            rep = {'natural': True, 'program': prog, 'input': label, 'outname': outname, 'pre_existing': pre}
+            if via:
+                ctx.feature('output_directory_via_symlink_or_dotdot')
+            rep = {'natural': True, 'program': prog, 'input': label, 'outname': outname, 'pre_existing': pre, 'via': via}
             if exc is not None and after != before:
                 changed = sorted(k for k in set(before) | set(after) if before.get(k) != after.get(k))
                 ctx.violation('spec', f"{prog} failed on its own input ({label}: {exc}) but the output directory changed: {changed} "
@@ -403,7 +418,7 @@ def natural_failures(ctx):
             if exc is None:
                 new = after.get(outname)
                 if not new or new == 'OLD CONTENT':
-                    ctx.violation('spec', f"{prog} returned normally ({label}) but no complete file is at the output path {outname}", rep)
+                    ctx.violation('spec', f"{prog} returned normally ({label}) but no complete file is at the output path {(via + '/') if via else ''}{outname}", rep)
                 elif prog != 'gen_seq' and pre and 'OLD CONTENT' not in [v for k, v in after.items() if k != outname]:
                     ctx.violation('spec', f"{prog} returned normally ({label}) but the previous file at {outname} is not kept under a backup name", rep)
 
@@ -427,7 +442,7 @@ def replay(ctx, data):
                 pass
 
             def violation(self, kind, what, rep, finding=None):
-                if all(rep.get(k) == data.get(k) for k in ('program', 'input', 'outname', 'pre_existing')):
+                if all(rep.get(k) == data.get(k) for k in ('program', 'input', 'outname', 'pre_existing', 'via')):
                     self.violations.append(what)
         n = N()
         natural_failures(n)
